@@ -10,6 +10,9 @@ package slug
 
 //@ func (*Packer).validSymlink -> (ok, err)
 //@   pure
+// deciding about a link never changes the Packer (its options are what the output is a function of); a write to
+// caller-visible memory here is reported under C16
+//@   opt pure-label=C16.packer-and-heap-unchanged
 //@   sweep
 //@   replay validSymlink: root=root, path=path, target=target, nallow=len(p.allowSymlinkTargets)
 //@   requires pre.p: p != nil
